@@ -62,3 +62,75 @@ theorem keyOf_length (revs : List Int) (e : SEv) (h : e.vals.length = revs.lengt
   simp [keyOf, List.length_zip, h]
 
 end AiuVerif.Sort
+
+namespace AiuVerif.Sort
+open AiuVerif.RS
+
+/-- everything the queues hold, lane after lane -/
+def held (qs : List (Lane × List SEv)) : List SEv := (qs.map (·.2)).flatten
+
+theorem held_insertQ (l : Lane) (e : SEv) (qs : List (Lane × List SEv)) :
+    (held (insertQ l e qs)).Perm (held qs ++ [e]) := by
+  induction qs with
+  | nil => simp [insertQ, held]
+  | cons q rest ih =>
+    obtain ⟨l', q'⟩ := q
+    simp only [insertQ]
+    split
+    · simp only [held, List.map_cons, List.flatten_cons, List.append_assoc]
+      exact List.Perm.append_left q' List.perm_append_comm
+    · simp only [held, List.map_cons, List.flatten_cons, List.append_assoc] at ih ⊢
+      exact List.Perm.append_left q' ih
+
+theorem drainQ_perm (revs : List Int) (qs : List (Lane × List SEv)) :
+    (drainQ revs qs).Perm (held qs) := by
+  induction qs with
+  | nil => simp [drainQ, held]
+  | cons q rest ih =>
+    simp only [drainQ, held, List.map_cons, List.flatten_cons] at ih ⊢
+    exact List.Perm.append (List.mergeSort_perm _ _) ih
+
+/-- the sort stage in an arbitrary context state -/
+def stageIn (revs : List Int) (g : Bool) (qs : List (Lane × List SEv)) : RS SEv :=
+  { σ := List (Lane × List SEv), s := qs, step := stepQ g, drain := drainQ revs }
+
+theorem feed1_stageIn_cons (revs : List Int) (g : Bool) (qs : List (Lane × List SEv)) (x : SEv)
+    (xs : List SEv) :
+    feed1 (stageIn revs g qs) (x :: xs) =
+      ((feed1 (stageIn revs g (stepQ g qs x).1) xs).1,
+        (stepQ g qs x).2 ++ (feed1 (stageIn revs g (stepQ g qs x).1) xs).2) := by
+  simp only [feed1, stageIn]
+
+/-- nothing is lost or duplicated by the sort stage, per-lane or global, whatever it already holds -/
+theorem sort_perm_from (revs : List Int) (g : Bool) (qs : List (Lane × List SEv)) (xs : List SEv) :
+    ((feed1 (stageIn revs g qs) xs).2 ++
+      (feed1 (stageIn revs g qs) xs).1.drain (feed1 (stageIn revs g qs) xs).1.s).Perm
+      (held qs ++ xs) := by
+  induction xs generalizing qs with
+  | nil =>
+    simp only [feed1, List.nil_append, List.append_nil]
+    exact drainQ_perm revs qs
+  | cons x xs ih =>
+    by_cases hq : queued x = true
+    · have hstep : stepQ g qs x = (insertQ (laneOf g x) x qs, []) := by simp [stepQ, hq]
+      rw [feed1_stageIn_cons, hstep]
+      simp only [List.nil_append]
+      refine (ih (insertQ (laneOf g x) x qs)).trans ?_
+      have h1 := held_insertQ (laneOf g x) x qs
+      have : (held qs ++ x :: xs) = (held qs ++ [x]) ++ xs := by simp
+      rw [this]
+      exact List.Perm.append_right xs h1
+    · have hstep : stepQ g qs x = (qs, [x]) := by simp [stepQ, hq]
+      rw [feed1_stageIn_cons, hstep]
+      simp only [List.cons_append]
+      have h2 := List.Perm.cons x (ih qs)
+      have : (held qs ++ x :: xs).Perm (x :: (held qs ++ xs)) := List.perm_middle
+      exact h2.trans this.symm
+
+/-- **The sort stage is a permutation** (batch semantics), in both modes. -/
+theorem sort_batch_perm (revs : List Int) (g : Bool) (xs : List SEv) :
+    (batch (sortStage revs g) xs).Perm xs := by
+  have := sort_perm_from revs g [] xs
+  simpa [batch, stageIn, sortStage, held] using this
+
+end AiuVerif.Sort
